@@ -11,6 +11,8 @@ import LccModel.Model.LoaderSpec
 import LccModel.Model.DirScan
 import LccModel.Model.ParamSource
 import LccModel.Model.Reload
+import LccModel.Model.PathSpelling
+import LccModel.Model.ClassAttrs
 open Lean LccModel LccModel.Proto LccModel.Loader LccModel.DirScan
 
 def getInt (j : Json) (k : String) : Except String Int := do
@@ -144,7 +146,50 @@ partial def parseCls (j : Json) : Except String Cls := do
                        disabled := ← parseDisabled j, ctorFails := ← getBoolD j "ctor_fails" }
   let tests ← (← getArrD j "tests").mapM parseTest
   let subs ← (← getArrD j "subs").mapM parseCls
-  pure (.mk h tests subs)
+  -- `mro`: what the class's `__dict__` and those of its bases hold BESIDES the members (properties with what their getter
+  -- does at load time, plain attributes), the class itself first; the members are found by the attribute scan of
+  -- `Model/ClassAttrs.lean` (`get_object_attributes`), not handed over
+  match j.getObjVal? "mro" with
+  | .error _ => pure (.mk h tests subs)
+  | .ok .null => pure (.mk h tests subs)
+  | .ok m => do
+    -- members listed in a base's dict (kind `member`) are INHERITED test methods: they live there, not in the class's own dict
+    let inherited : List String := (← (← m.getArr?).toList.mapM (fun d => do
+      (← d.getArr?).toList.filterMapM (fun e => do
+        if (← getStr e "kind") == "member" then pure (some (← getStr e "name")) else pure none))).flatten
+    let own : LccModel.ClassAttrs.ClassDict :=
+      (tests.filter (fun t => !inherited.contains t.attr)).map (fun t => (t.attr, .member (.test t))) ++
+        subs.map (fun c => (c.head.attr, .member (.suite c)))
+    let target (a : String) : LccModel.ClassAttrs.Getter :=
+      match tests.find? (fun t => t.attr == a) with
+      | some t => .returns (.test t)
+      | none => match subs.find? (fun c => c.head.attr == a) with
+        | some c => .returns (.suite c)
+        | none => .value
+    let parseEntry (e : Json) : Except String (String × LccModel.ClassAttrs.Entry) := do
+      let n ← getStr e "name"
+      match (← getStr e "kind") with
+      | "plain" => pure (n, .plain)
+      | "member" => match tests.find? (fun t => t.attr == n) with
+        | some t => pure (n, .member (.test t))
+        | none => throw s!"model: inherited member {n} is not among the tests"
+      | _ => match (← getStr e "getter") with
+        | "raises" => pure (n, .property .raises)
+        | "returns" => pure (n, .property (target (← getStr e "target")))
+        | _ => pure (n, .property .value)
+    let dicts ← (← m.getArr?).toList.mapM (fun d => do (← d.getArr?).toList.mapM parseEntry)
+    let mro : LccModel.ClassAttrs.MRO := match dicts with
+      | [] => [own]
+      | d :: ds => (own ++ d) :: ds
+    match LccModel.ClassAttrs.members mro with
+    | .error _ => throw "model: the attribute scan raised (a property was evaluated)"
+    | .ok ms =>
+      -- the scan finds exactly the members that are not `__`-named (those are dropped by `strip…`, finding D18), each once;
+      -- the class travels on as written (`stripCls` is applied by the entry points)
+      let want := (tests.filter (fun t => !dunder t.attr)).map (·.attr) ++ (subs.filter (fun c => !dunder c.head.attr)).map (·.head.attr)
+      let srt (l : List String) : List String := (l.toArray.qsort (· < ·)).toList
+      if srt (ms.map (·.attr)) == srt want then pure (.mk h tests subs)
+      else throw s!"model: the attribute scan yields {ms.map (·.attr)} instead of the members {want}"
 
 def parseInfo (j : Json) : Except String (Option SuiteInfo) :=
   match j.getObjVal? "info" with
@@ -269,7 +314,19 @@ def handle (j : Json) : Except String Json := do
     -- the directory as it is on disk: the scan decides which entries are suite modules (`Model/DirScan.lean`)
     let r ← parseRawDir (← j.getObjVal? "dir")
     let d := scanDir r
-    let a := answer (loadRawDir r) (declDir (stripDir d)) (declDir d) (noDunderDir d) none
+    -- `spelling`: the path string the caller hands to `load_suites_from_directory` (`Model/PathSpelling.lean`): the loader
+    -- pairs modules and companion directories through path STRINGS built from it
+    let sp := (j.getObjValAs? String "spelling").toOption
+    let res := match sp with
+      | some s => LccModel.PathSpelling.loadDirRealAt s d
+      | none => loadRawDir r
+    let a := answer res (declDir (stripDir d)) (declDir d) (noDunderDir d) none
+    let a := match sp with
+      | some s =>
+        let plain := answer (loadRawDir r) (declDir (stripDir d)) (declDir d) (noDunderDir d) none
+        (a.setObjVal! "spelling_ok" (.bool (LccModel.PathSpelling.spellingOk s))).setObjVal! "names_ok"
+          (.bool (LccModel.PathSpelling.namesOk d)) |>.setObjVal! "same_as_unspelled" (.bool (a.compress == plain.compress))
+      | none => a
     pure (a.setObjVal! "scan" (Json.arr (scanJ [] r).toArray))
   | "rawfiles" =>
     let fs ← (← getArrD j "files").mapM parseFileEntry
